@@ -128,6 +128,10 @@ OUTREDUCE = {
 
 
 def denote(e, env, leaves):
+    return _raw(_denote(e, env, leaves))
+
+
+def _denote(e, env, leaves):
     tag = e[0]
     if tag == "leaf":
         _, name, inputs, shape, carrier = e
